@@ -442,10 +442,46 @@ func lexPunctuation(l *lexer) stateFn {
 	return lexExpression
 }
 
+// closingQuote returns the offset of the quote that ends a string literal
+// whose text (after the opening quote) is s, or -1. In a double-quoted string
+// the quotes of strings written inside an interpolation ("#{ user["name"] }")
+// do not end the literal.
+func closingQuote(s string, quote string) int {
+	if quote != `"` {
+		return strings.Index(s, quote)
+	}
+	depth := 0     // nesting of braces inside #{ }
+	var inner byte // the quote of a string inside the interpolation, if in one
+	for i := 0; i < len(s); i++ {
+		c := s[i]
+		switch {
+		case depth == 0:
+			if c == '"' {
+				return i
+			}
+			if c == '#' && i+1 < len(s) && s[i+1] == '{' {
+				depth = 1
+				i++
+			}
+		case inner != 0:
+			if c == inner {
+				inner = 0
+			}
+		case c == '"' || c == '\'':
+			inner = c
+		case c == '{':
+			depth++
+		case c == '}':
+			depth--
+		}
+	}
+	return -1
+}
+
 func lexString(l *lexer) stateFn {
 	open := l.next()
 	l.emit(tokenStringOpen)
-	closePos := strings.Index(l.input[l.pos:], open)
+	closePos := closingQuote(l.input[l.pos:], open)
 	if closePos < 0 {
 		return l.errorf("unclosed string")
 	}
